@@ -259,7 +259,7 @@ ADDED = {
 }
 ROBUST = (" The rules read a canonical form of the syntax trees (comparison orientation, if/else polarity, else-after-return, keyword/positional "
           "arguments, range(0, n), method values) named tuples, tuple parameters; renamed parameters and methods are read under the names of the reference tree) and statement-level inlined helpers, so behaviour-preserving rewrites do not change the verdict "
-          "(215 sub-agent refactorings, 16 corrected twins of seeded refactorings and 18 kinds of whole-tree probes are replayed by the thorough tier).")
+          "(215 sub-agent refactorings, 17 corrected twins of seeded refactorings and 18 kinds of whole-tree probes are replayed by the thorough tier).")
 
 
 def main():
